@@ -45,7 +45,7 @@ P["C02"] = dict(
     note=TRUST + "The 2-run (relational) statement itself is not expressed; what is proved is the 1-run sufficient condition "
          "(operand bytes are confined to unsafe mode at every write site), for all formats, operands and user methods obeying "
          "their rely contracts. Rendering functions of fmt-derived code (format.go) are classified by call site, their digit "
-         "generation is not re-verified (nosweep).",
+         "generation is not re-verified for content (only for index safety, under C11).",
     decided=["every operand-class write site runs in unsafe mode unless a Safe context/classification applies (S1), all paths, all inputs",
              "the pool hands out printers with no stale override/context (free precondition), so earlier calls cannot declassify"],
     undecided=["byte-for-byte equality of two redacted outputs (relational); decided only via the confinement condition above"])
@@ -142,10 +142,10 @@ P["C11"] = dict(
           "catchPanic's contract contains user-method panics (ghost $panic) and restores printer state; only re-panics while "
           "printing a panic payload propagate."),
     ref="DESIGN 4 (C11)",
-    note=TRUST + "fmt-derived numeric formatting (fmtInteger, fmtFloat, fmtUnicode, fmtQ...) is excluded from the sweep (nosweep: "
+    note=TRUST + "fmtFloat (strconv-based) is an assumed contract; newPrinter is nosweep (pool type assertion); integer/unicode/char formatting IS swept, using the digit-count spec function nd whose defining equations and bounds are axioms; "
          "stdlib-derived buffer arithmetic), reflect kind preconditions are assumed where printValue dispatches on Kind.",
     decided=["no run-time panic at any swept site; user panics contained; output before/after intact (buffer invariant on unwinding)"],
-    undecided=["functions marked nosweep (listed in the evidence)"])
+    undecided=["fmtFloat (strconv; assumed contract) and newPrinter's pool type assertion (nosweep)"])
 
 P["C12"] = dict(
     level="proof",
